@@ -57,6 +57,7 @@ def make_world():
     d2 = pd.DataFrame({"y": [5.0, 6.0, 7.0, 8.0, 9.0], "a": [10.0, np.nan, 30.0, 50.0, 20.0], "b": [5.0, 7.0, 9.0, 11.0, 2.0],
                        "A": pd.Series(["y", "y", "z", None, "x"], dtype=object), "B": pd.Series(["v", "u", "u", "v", "w"], dtype=object)},
                       index=[3, 1, 4, 1, 5])
+    d1[7] = [0.0, 1.0, 0.0, 1.0]  # a non-string column label that no formula uses
     w = {"D1": d1, "D2": d2}
     for k, src in FORMULA_SRC.items():
         if k == "F6":
@@ -78,10 +79,11 @@ def world_digests(w):
 
 
 def _formula_terms(f):
+    """every observable attribute of a formula: terms in order, and per factor its expression, evaluation method, kind and metadata"""
     from formulaic.utils.structured import Structured
     if isinstance(f, Structured):
         return [_formula_terms(x) for x in f._flatten()]
-    return [str(t) for t in f]
+    return [[str(t), [(fa.expr, fa.eval_method.value, fa.kind.value, canon(fa.metadata)) for fa in t.factors]] for t in f]
 
 
 def result_digest(r):
